@@ -138,7 +138,7 @@ fn arr<T: std::fmt::Debug>(v: &[T]) -> String {
 /// Walk the product of the three automata from their start states.
 /// Returns nnfa-state -> (cnfa-state, dfa-state or MAX), a BFS witness string
 /// per nnfa state, and the list of inconsistencies found.
-fn product(
+pub fn product(
     n: &noncontiguous::NFA,
     c: &contiguous::NFA,
     d: &DFA,
@@ -350,6 +350,14 @@ fn gen(cases_path: &str, out_rs: &str, out_facts: &str) {
         if line.is_empty() || line.starts_with('#') {
             continue;
         }
+        if line.starts_with("packed ") {
+            if !first {
+                facts.push_str(",\n");
+            }
+            first = false;
+            gen_packed(line, &mut rs, &mut facts);
+            continue;
+        }
         let spec = parse_case(line);
         let b = build(&spec);
         let n = verif::ac::as_nnfa(&b.ac_n).expect("nnfa kind not honoured");
@@ -516,6 +524,37 @@ fn gen(cases_path: &str, out_rs: &str, out_facts: &str) {
             }
             writeln!(rs, "];").unwrap();
         }
+        // prefilter
+        let pf_desc = verif::prefilter::describe(verif::nnfa::take_prefilter(n).as_ref());
+        let pf_desc_d = verif::prefilter::describe(verif::dfa::take_prefilter(d).as_ref());
+        if format!("{:?}", pf_desc) != format!("{:?}", pf_desc_d) {
+            problems.push("prefilter of the DFA differs from the noncontiguous NFA's".into());
+        }
+        let pfp = "aho_corasick::verif::prefilter";
+        let (pf_code, pf_expr): (u8, String) = match &pf_desc {
+            verif::prefilter::Desc::None => (0, "None".into()),
+            verif::prefilter::Desc::Start1(a) => (1, format!("Some({}::start1({}))", pfp, a)),
+            verif::prefilter::Desc::Start2(a, b) => (2, format!("Some({}::start2({}, {}))", pfp, a, b)),
+            verif::prefilter::Desc::Start3(a, b, c) => (3, format!("Some({}::start3({}, {}, {}))", pfp, a, b, c)),
+            verif::prefilter::Desc::Rare1(a, o) => (4, format!("Some({}::rare1({}, {}))", pfp, a, o)),
+            verif::prefilter::Desc::Rare2(o, a, b) => {
+                writeln!(rs, "pub static RARE_OFFSETS: [u8; 256] = {};", arr(o)).unwrap();
+                (5, format!("Some({}::rare2(&RARE_OFFSETS, {}, {}))", pfp, a, b))
+            }
+            verif::prefilter::Desc::Rare3(o, a, b, c) => {
+                writeln!(rs, "pub static RARE_OFFSETS: [u8; 256] = {};", arr(o)).unwrap();
+                (6, format!("Some({}::rare3(&RARE_OFFSETS, {}, {}, {}))", pfp, a, b, c))
+            }
+            verif::prefilter::Desc::Memmem(nd) => {
+                writeln!(rs, "pub static NEEDLE: [u8; {}] = {};", nd.len(), arr(nd)).unwrap();
+                (7, format!("Some({}::memmem(&NEEDLE))", pfp))
+            }
+            verif::prefilter::Desc::Packed => (8, "None /* packed: see packed() */".into()),
+            verif::prefilter::Desc::Unknown(x) => {
+                problems.push(format!("unknown prefilter variant {}", x));
+                (9, "None".into())
+            }
+        };
         writeln!(rs, "pub struct C;").unwrap();
         writeln!(rs, "impl crate::Case for C {{").unwrap();
         writeln!(rs, "const NAME: &'static str = {:?};", spec.name).unwrap();
@@ -526,9 +565,11 @@ fn gen(cases_path: &str, out_rs: &str, out_facts: &str) {
         writeln!(rs, "const MAXLEN: usize = {};", spec.pats.iter().map(|p| p.len()).max().unwrap_or(0)).unwrap();
         writeln!(rs, "const MINLEN: usize = {};", spec.pats.iter().map(|p| p.len()).min().unwrap_or(0)).unwrap();
         writeln!(rs, "fn pats() -> &'static [&'static [u8]] {{ &PATS }}").unwrap();
-        writeln!(rs, "fn dfa() -> aho_corasick::dfa::DFA {{ d::get() }}").unwrap();
-        writeln!(rs, "fn cnfa() -> aho_corasick::nfa::contiguous::NFA {{ c::get() }}").unwrap();
-        writeln!(rs, "fn nnfa() -> aho_corasick::nfa::noncontiguous::NFA {{ n::get() }}").unwrap();
+        writeln!(rs, "const PF: u8 = {};", pf_code).unwrap();
+        writeln!(rs, "fn prefilter() -> Option<aho_corasick::automaton::Prefilter> {{ {} }}", pf_expr).unwrap();
+        writeln!(rs, "fn dfa() -> aho_corasick::dfa::DFA {{ let mut a = d::get(); aho_corasick::verif::dfa::set_prefilter(&mut a, Self::prefilter()); a }}").unwrap();
+        writeln!(rs, "fn cnfa() -> aho_corasick::nfa::contiguous::NFA {{ let mut a = c::get(); aho_corasick::verif::cnfa::set_prefilter(&mut a, Self::prefilter()); a }}").unwrap();
+        writeln!(rs, "fn nnfa() -> aho_corasick::nfa::noncontiguous::NFA {{ let mut a = n::get(); aho_corasick::verif::nnfa::set_prefilter(&mut a, Self::prefilter()); a }}").unwrap();
         writeln!(rs, "fn rel_u() -> &'static [[u32; 3]] {{ &REL_U }}").unwrap();
         writeln!(rs, "fn rel_a() -> &'static [[u32; 3]] {{ &REL_A }}").unwrap();
         writeln!(rs, "}}").unwrap();
@@ -545,7 +586,7 @@ fn gen(cases_path: &str, out_rs: &str, out_facts: &str) {
         write!(facts, "\"auto_kind\": {}, \"auto_equal\": {}, ", auto_kind, auto_equal).unwrap();
         write!(facts, "\"dfa_states\": {}, \"dfa_stride2\": {}, \"dfa_alphabet\": {}, \"dfa_match_rows\": {}, \"dfa_special\": {:?}, ", rd.state_len, rd.stride2, rd.alphabet_len, rd.matches.len(), rd.special).unwrap();
         write!(facts, "\"cnfa_special\": {:?}, \"nnfa_special\": {:?}, ", rc.special, rn.special).unwrap();
-        write!(facts, "\"prefilter\": {}, \"has_prefilter\": {}, ", json_str(&rn.prefilter_debug), rn.has_prefilter).unwrap();
+        write!(facts, "\"prefilter\": {}, \"has_prefilter\": {}, \"pf_code\": {}, ", json_str(&rn.prefilter_debug), rn.has_prefilter, pf_code).unwrap();
         // nnfa per-state: sparse list length, has dense row, match list length, fail chain length
         let mut nn_states = vec![];
         for (i, st) in rn.states.iter().enumerate() {
@@ -588,6 +629,117 @@ fn gen(cases_path: &str, out_rs: &str, out_facts: &str) {
     facts.push_str("\n}\n");
     std::fs::write(out_rs, rs).unwrap();
     std::fs::write(out_facts, facts).unwrap();
+}
+
+#[derive(Clone, Debug)]
+pub struct PackedSpec {
+    pub name: String,
+    pub kind: u8,       // 1 leftmost-first, 2 leftmost-longest
+    pub force: String,  // rk | teddy128 | auto
+    pub pats: Vec<Vec<u8>>,
+}
+
+pub fn parse_packed(line: &str) -> PackedSpec {
+    let f: Vec<&str> = line.split_whitespace().collect();
+    assert!(f.len() == 5 && f[0] == "packed", "bad packed line: {}", line);
+    PackedSpec {
+        name: f[1].to_string(),
+        kind: if f[2] == "lf" { 1 } else { 2 },
+        force: f[3].to_string(),
+        pats: f[4].split(',').map(unhex).collect(),
+    }
+}
+
+pub fn build_packed(spec: &PackedSpec) -> Option<aho_corasick::packed::Searcher> {
+    use aho_corasick::packed;
+    let mut c = packed::Config::new();
+    c.match_kind(if spec.kind == 1 { packed::MatchKind::LeftmostFirst } else { packed::MatchKind::LeftmostLongest });
+    match spec.force.as_str() {
+        "rk" => {
+            c.only_rabin_karp(true);
+        }
+        "teddy128" => {
+            c.only_teddy(true).only_teddy_256bit(Some(false)).only_teddy_fat(Some(false));
+        }
+        "teddy256" => {
+            c.only_teddy(true).only_teddy_256bit(Some(true)).only_teddy_fat(Some(false));
+        }
+        "fat" => {
+            c.only_teddy(true).only_teddy_fat(Some(true));
+        }
+        _ => {}
+    }
+    c.builder().extend(&spec.pats).build()
+}
+
+fn gen_packed(line: &str, rs: &mut String, facts: &mut String) {
+    let spec = parse_packed(line);
+    let srch = build_packed(&spec).unwrap_or_else(|| panic!("packed case {}: no searcher built", spec.name));
+    let raw = verif::packed::api::to_raw(&srch);
+    let m = format!("p_{}", spec.name);
+    writeln!(rs, "pub mod {} {{", m).unwrap();
+    for (i, p) in spec.pats.iter().enumerate() {
+        writeln!(rs, "pub static P{}: [u8; {}] = {};", i, p.len(), arr(p)).unwrap();
+    }
+    write!(rs, "pub static PATS: [&[u8]; {}] = [", spec.pats.len()).unwrap();
+    for i in 0..spec.pats.len() {
+        write!(rs, "&P{}, ", i).unwrap();
+    }
+    writeln!(rs, "];").unwrap();
+    writeln!(rs, "pub static ORDER: [u32; {}] = {};", raw.order.len(), arr(&raw.order)).unwrap();
+    assert!(raw.rk_buckets.len() == 64, "Rabin-Karp bucket count changed");
+    for (i, b) in raw.rk_buckets.iter().enumerate() {
+        write!(rs, "pub static RK{}: [aho_corasick::verif::packed::rabinkarp::Entry; {}] = [", i, b.len()).unwrap();
+        for (h, pid) in b {
+            write!(rs, "aho_corasick::verif::packed::rabinkarp::entry({}, {}),", h, pid).unwrap();
+        }
+        writeln!(rs, "];").unwrap();
+    }
+    write!(rs, "pub static RKB: [&[aho_corasick::verif::packed::rabinkarp::Entry]; 64] = [").unwrap();
+    for i in 0..64 {
+        write!(rs, "&RK{},", i).unwrap();
+    }
+    writeln!(rs, "];").unwrap();
+    let teddy_bytes = if raw.teddy_rebuildable { raw.teddy_masks.len() } else { 0 };
+    let mut tb = raw.teddy_buckets.clone();
+    while tb.len() < 8 {
+        tb.push(vec![]);
+    }
+    for (i, b) in tb.iter().enumerate().take(8) {
+        writeln!(rs, "pub static TB{}: [u32; {}] = {};", i, b.len(), arr(b)).unwrap();
+    }
+    writeln!(rs, "pub static TBS: [&[u32]; 8] = [&TB0, &TB1, &TB2, &TB3, &TB4, &TB5, &TB6, &TB7];").unwrap();
+    write!(rs, "pub static TMASKS: [([u8; 16], [u8; 16]); {}] = [", raw.teddy_masks.len()).unwrap();
+    for (lo, hi) in &raw.teddy_masks {
+        write!(rs, "({}, {}),", arr(lo), arr(hi)).unwrap();
+    }
+    writeln!(rs, "];").unwrap();
+    writeln!(rs, "pub struct C;").unwrap();
+    writeln!(rs, "impl crate::PackedCase for C {{").unwrap();
+    writeln!(rs, "const NAME: &'static str = {:?};", spec.name).unwrap();
+    writeln!(rs, "const KIND: u8 = {};", spec.kind).unwrap();
+    writeln!(rs, "const NPATS: usize = {};", spec.pats.len()).unwrap();
+    writeln!(rs, "const MINIMUM_LEN: usize = {};", raw.minimum_len).unwrap();
+    writeln!(rs, "fn pats() -> &'static [&'static [u8]] {{ &PATS }}").unwrap();
+    writeln!(
+        rs,
+        "fn searcher() -> aho_corasick::packed::Searcher {{ aho_corasick::verif::packed::api::from_parts({}, &PATS, &ORDER, {}, &RKB, {}, {}, {}, &TBS, &TMASKS, {}) }}",
+        raw.kind, raw.patterns_minimum_len, raw.rk_hash_len, raw.rk_hash_2pow, teddy_bytes, raw.minimum_len
+    )
+    .unwrap();
+    writeln!(rs, "}}").unwrap();
+    writeln!(rs, "}}").unwrap();
+    // fidelity: the rebuilt searcher must dump identically
+    let mut problems: Vec<String> = vec![];
+    if raw.imp != "RabinKarp" && !raw.teddy_rebuildable {
+        problems.push(format!("teddy implementation {} cannot be rebuilt by the hook", raw.imp));
+    }
+    write!(facts, "{}: {{", json_str(&format!("packed:{}", spec.name))).unwrap();
+    write!(facts, "\"pats\": [{}], ", spec.pats.iter().map(|p| json_str(&hex(p))).collect::<Vec<_>>().join(",")).unwrap();
+    write!(facts, "\"kind\": {}, \"force\": {}, \"imp\": {}, \"minimum_len\": {}, \"teddy_bytes\": {}, \"order\": {:?}, ", spec.kind, json_str(&spec.force), json_str(&raw.imp), raw.minimum_len, teddy_bytes, raw.order).unwrap();
+    write!(facts, "\"rk_hash_len\": {}, \"max_bucket\": {}, \"max_teddy_bucket\": {}, ", raw.rk_hash_len, raw.rk_buckets.iter().map(|b| b.len()).max().unwrap_or(0), raw.teddy_buckets.iter().map(|b| b.len()).max().unwrap_or(0)).unwrap();
+    write!(facts, "\"problems\": [{}]", problems.iter().map(|s| json_str(s)).collect::<Vec<_>>().join(",")).unwrap();
+    facts.push('}');
 }
 
 fn main() {
